@@ -59,11 +59,11 @@ func newFileInfo(name string, fs *Fs, fileMode os.FileMode) (*FileInfo, error) {
 			res.isDir = true
 			return res, nil
 		} else if err.Error() == ErrObjectDoesNotExist.Error() {
-			// Folders do not actually "exist" in GCloud, so we have to check, if something exists with
-			// such a prefix
+			// Folders do not actually "exist" in GCloud, so we have to check, if something exists
+			// below such a prefix (with the separator: "d.txt" is not inside the folder "d")
 			bucketName, bucketPath := fs.splitName(name)
 			it := fs.client.Bucket(bucketName).Objects(
-				fs.ctx, &storage.Query{Delimiter: fs.separator, Prefix: bucketPath, Versions: false})
+				fs.ctx, &storage.Query{Delimiter: fs.separator, Prefix: fs.ensureTrailingSeparator(bucketPath), Versions: false})
 			if _, err = it.Next(); err == nil {
 				res.name = fs.ensureTrailingSeparator(res.name)
 				res.isDir = true
